@@ -148,7 +148,10 @@ tokFilled:
 
 	start.Head = expr
 
-	tok, err = lexer.PeekNextToken(0)
+	// the list is still open: what follows the head may not have
+	// arrived yet, so wait for it rather than take the end of the
+	// available input for "not a backslash".
+	tok, err = parser.ParserPeekNextToken(0)
 	if err != nil {
 		return SexpNull, err
 	}
@@ -157,8 +160,15 @@ tokFilled:
 	if tok.typ == TokenBackslash {
 		// eat up the backslash
 		_, _ = lexer.GetNextToken()
+		// wait for the tail, and then for the closing paren
+		if _, err = parser.ParserPeekNextToken(0); err != nil {
+			return SexpNull, err
+		}
 		expr, err = parser.ParseExpression(depth + 1)
 		if err != nil {
+			return SexpNull, err
+		}
+		if _, err = parser.ParserPeekNextToken(0); err != nil {
 			return SexpNull, err
 		}
 
